@@ -1,7 +1,8 @@
 (* C08 property theorems (verified checker): the critical-path graph is a forward-in-time DAG with typed, non-negative edges. *)
 From HTA.lib Require Import Base Dag.
+From HTA.gen Require Import CpRules_gen.
 From HTA.model Require Import C08_Model C08_Host C08_Dev.
-From HTA.proof Require Import C08_Proofs C08_HostProofs C08_DevProofs.
+From HTA.proof Require Import C08_Proofs C08_HostProofs C08_DevProofs C08_RulesTie.
 Open Scope Z_scope.
 
 Theorem C08_edges_forward_nonneg : forall zw clipped N E e, edge_ok zw clipped N E e = true ->
@@ -65,6 +66,16 @@ Example C08_dev_nonvacuous :
   encode_dev false [DK 2 7 5 9 1 0 true 1 0; DK 4 7 9 12 3 3 true 2 0; DC 5 14 true] =
   (true, true, [[1; 1; 2; 1; 5; 2; -2]; [2; 0; 4; 1; 0; 3; 2]; [2; 1; 2; 0; 4; 0; 2]; [4; 0; 5; 0; 0; 4; -2]; [4; 1; 4; 0; 3; 0; 4]]).
 Proof. vm_compute. reflexivity. Qed.
+
+(* the tie by regeneration: the weights the two builder models give their edges are those of the weight rule GENERATED from the
+   current source (CPGraph._add_edge_helper; type codes from the member order of CPEdgeType) *)
+Theorem C08_weights_follow_generated_rule :
+  (forall tab s a e, In e (snd (hstep tab s a)) -> rule_weight e (closing_blocking tab a)) /\ (forall zw st r e, In e (snd (fst (dstep zw st r))) -> exists zero, rule_weight e zero /\ (zero = true -> he_ty e = 2 /\ zw = true)).
+Proof.
+  split; [intros tab s a e H; apply (host_rules_are_generated tab s a e H)|].
+  intros zw st r e H. destruct (dev_rules_are_generated zw st r e H) as [z [H1 [H2 _]]]. exists z. split; assumption.
+Qed.
+Print Assumptions C08_weights_follow_generated_rule.
 
 (* non-vacuity: launch call [0,2) launches kernel [5,9); a second kernel [9,12) on the stream; sync call [10,14) waits *)
 Definition cl08 : list ev :=
